@@ -6,6 +6,13 @@ import json, os, sys
 
 pid, root = sys.argv[1], sys.argv[2]
 n = int(sys.argv[3]) if len(sys.argv) > 3 else 2
+# --avoid: list the one-line descriptions of changes authored in earlier rounds for this property (what they
+# change, nothing about whether or how any check reacts), so that a new author explores other sites
+avoid = []
+if '--avoid' in sys.argv:
+    import glob
+    for m in sorted(glob.glob(os.path.join(os.path.dirname(__file__), '..', 'seeded', pid + '-*', 'meta.json'))):
+        avoid.append(json.load(open(m))['breaks'])
 prop = None
 for l in open(os.path.join(os.path.dirname(__file__), '..', 'properties.jsonl')):
     d = json.loads(l)
@@ -13,6 +20,9 @@ for l in open(os.path.join(os.path.dirname(__file__), '..', 'properties.jsonl'))
         prop = d
 text = {k: prop[k] for k in ('id', 'title', 'statement', 'quantifier', 'why_tests_cant', 'anchors')}
 wt = f"{root}/{pid}/wt"
+AVOID = ""
+if avoid:
+    AVOID = "ALREADY SUBMITTED BY OTHER AUTHORS (do NOT repeat these or close variants of them: pick other functions, other mechanisms;\nthe less obvious the site, the better):\n" + "".join("  - " + a + "\n" for a in avoid) + "\n"
 print(f"""You are helping to evaluate a verification effort for the Go project liftbridge (a Kafka-style replicated message log on NATS).
 Your job: author {n} DIFFERENT realistic code changes ("seeded defects") to liftbridge, each of which BREAKS the semantic property below
 while the project still compiles and its EXISTING test suite still passes. Each change must come with a demonstration.
@@ -36,7 +46,7 @@ WHAT KIND OF CHANGE
 * The {n} changes must differ in mechanism and preferably in file/function. Prefer sites a reviewer would not look at first: glue code,
   recovery paths, rarely-taken branches, the second or third copy of duplicated logic.
 
-BUILD/TEST ENVIRONMENT (no network):
+{AVOID}BUILD/TEST ENVIRONMENT (no network):
   export GOFLAGS=-mod=mod GOPROXY=off      # in every shell call; do NOT set GOTOOLCHAIN or GOSUMDB
   cd {wt} && go build ./... && go vet ./server/... 2>/dev/null | head   # build must pass
   Tests of a package:  go test -vet=off -count=1 -timeout 25m ./server/commitlog   (etc.)
